@@ -292,16 +292,24 @@ theorem stateDelete_abs (st : Store) (parts : List String) :
       · simp only [absOut, setCore_abs, argStr?, svAttrs, Option.map_some, abs_adel]
         simp [setRule, merge, absAttrs, ofList]
 
-theorem stateSetattr_abs (env : Env) (st : Store) (parts : List String) (v : Val)
-    (h : ∀ d n a, parts = [d, n, a] → reserved a = false) :
-    (absStore (stateSetattr env st parts v).1, absOut (stateSetattr env st parts v).2)
+theorem stateSetattr_abs (fx : Fixes) (env : Env) (st : Store) (parts : List String) (v : Val)
+    (h : fx.setattrDict = true ∨ ∀ d n a, parts = [d, n, a] → reserved a = false) :
+    (absStore (stateSetattr fx env st parts v).1, absOut (stateSetattr fx env st parts v).2)
       = Spec.setattr (absStore st) parts v := by
   rcases parts with _ | ⟨d, _ | ⟨n, _ | ⟨a, _ | ⟨b, r⟩⟩⟩⟩ <;> simp only [stateSetattr, Spec.setattr, absOut]
-  have hr : STATE_SET_PARAMS.contains a = false := h d n a rfl
-  simp only [stateExist, absStore_apply, hr]
+  simp only [absStore_apply]
   cases h2 : aget (d, n) st
   · simp [absOut]
-  · simp [absOut, setCore_abs, argStr?, svAttrs]
+  · rename_i r
+    by_cases hf : fx.setattrDict = true
+    · simp only [hf, if_true, Option.map_some, absOut, setCore_abs, argStr?, svAttrs]
+      simp [setRule, merge, abs_aset, attrsOf, valueOf, absStore_apply, h2, absRec]
+    · have hr : STATE_SET_PARAMS.contains a = false := by
+        rcases h with h | h
+        · exact absurd h hf
+        · exact h d n a rfl
+      have hr' : a ∉ STATE_SET_PARAMS := by simpa using hr
+      simp [hf, hr', absOut, setCore_abs, argStr?, svAttrs]
 
 theorem stateSet_abs (st : Store) (parts : List String) (value : Arg) (na : Option Attrs) (kw : Attrs)
     (h : (∀ s, value ≠ .sv s) ∨ na ≠ none) :
@@ -484,8 +492,9 @@ theorem absState_capture (ms : MState) (o : Out) :
   cases o <;> simp [capture, Spec.capture, absState, absOut]
 
 theorem load_abs (env : Env) (hs : SimpleEnv env) (hok : EnvOK env) (st : Store) (parts : List String)
-    (hc : Conf env (.load parts) = true) :
+    (hc : ∃ fx, Conf fx env (.load parts) = true) :
     absOut (loadDotted env st parts) = Spec.load env (absStore st) parts := by
+  obtain ⟨fx, hc⟩ := hc
   rcases parts with _ | ⟨d, _ | ⟨n, _ | ⟨a, _ | ⟨b, r⟩⟩⟩⟩
   all_goals first | (simp [Conf] at hc; done) | skip
   all_goals simp only [Conf] at hc
@@ -516,14 +525,14 @@ theorem withStore_abs (ms : MState) (r : Store × Out) (r' : AStore × SOut)
   subst h
   simp [withStore, Spec.withStore, absState]
 
-theorem step_refines (env : Env) (hs : SimpleEnv env) (hok : EnvOK env) (ms : MState) (op : Op)
-    (hc : Conf env op = true) :
-    absState (step env ms op).1 = (Spec.step env (absState ms) op).1 ∧
-      absOut (step env ms op).2 = (Spec.step env (absState ms) op).2 := by
+theorem step_refines (fx : Fixes) (env : Env) (hs : SimpleEnv env) (hok : EnvOK env) (ms : MState) (op : Op)
+    (hc : Conf fx env op = true) :
+    absState (step fx env ms op).1 = (Spec.step env (absState ms) op).1 ∧
+      absOut (step fx env ms op).2 = (Spec.step env (absState ms) op).2 := by
   cases op with
   | load parts =>
     simp only [step, Spec.step]
-    have h := load_abs env hs hok ms.store parts hc
+    have h := load_abs env hs hok ms.store parts ⟨fx, hc⟩
     exact ⟨by rw [absState_capture, h]; rfl, by rw [h]; rfl⟩
   | get parts =>
     simp only [step, Spec.step]
@@ -538,19 +547,23 @@ theorem step_refines (env : Env) (hs : SimpleEnv env) (hok : EnvOK env) (ms : MS
       | snap i => simp at hc
       | none =>
         simp only [step, Spec.step, resolveArg, Spec.store]
-        have hp : (pyVarSrc env d).isSome = true := hc
         apply withStore_abs
-        simp only [storeDotted, head_defined env hs hok, hp, if_true, absOut]
+        simp only [storeDotted, head_defined env hs hok]
         cases hq : pyVarSrc env d
-        · simp [hq] at hp
-        · rfl
+        · have hf : fx.assignNone = true := by simpa [hq] using hc
+          simp only [Option.isSome_none, Bool.false_eq_true, if_false, List.length_cons, List.length_nil,
+            ASSIGN_DOTS_SET, refStr, hf, Bool.true_and, beq_self_eq_true, if_true]
+          have := stateSet_abs ms.store [d, n] (.plain noneStr) none [] (Or.inl (by simp))
+          simpa [Spec.set, argStr?, absState, noneStr] using this
+        · simp [absOut, absState]
       | plain x =>
         simp only [step, Spec.step, resolveArg, Spec.store]
         apply withStore_abs
         simp only [storeDotted, head_defined env hs hok]
         cases hq : pyVarSrc env d
-        · simp only [Option.isSome_none, Bool.false_eq_true, if_false, List.length_cons, List.length_nil,
-            ASSIGN_DOTS_SET, refStr]
+        · have hne : (Arg.plain x == Arg.none) = false := by simp
+          simp only [Option.isSome_none, Bool.false_eq_true, if_false, List.length_cons, List.length_nil,
+            ASSIGN_DOTS_SET, refStr, hne, Bool.and_false]
           have := stateSet_abs ms.store [d, n] (.plain x) none [] (Or.inl (by simp))
           simpa [Spec.set, argStr?, absState] using this
         · simp [absOut, absState]
@@ -562,11 +575,15 @@ theorem step_refines (env : Env) (hs : SimpleEnv env) (hok : EnvOK env) (ms : MS
         apply withStore_abs
         simp only [storeDotted, head_defined env hs hok]
         cases hq : pyVarSrc env d
-        · have hr : reserved a = false := by simpa [hq] using hc
+        · have hr : fx.setattrDict = true ∨ reserved a = false := by
+            simp only [hq, Option.isSome_none, Bool.or_eq_true, Bool.not_eq_true', Bool.false_eq_true, or_false] at hc
+            exact hc
           simp only [Option.isSome_none, Bool.false_eq_true, if_false, List.length_cons, List.length_nil,
             ASSIGN_DOTS_SET, ASSIGN_DOTS_SETATTR]
-          have := stateSetattr_abs env ms.store [d, n, a] Val.none (by
-            intro d' n' a' he; simp only [List.cons.injEq, and_true] at he; rw [← he.2.2]; exact hr)
+          have := stateSetattr_abs fx env ms.store [d, n, a] Val.none (by
+            rcases hr with h | h
+            · exact Or.inl h
+            · right; intro d' n' a' he; simp only [List.cons.injEq, and_true] at he; rw [← he.2.2]; exact h)
           simpa [absState] using this
         · simp [absOut, absState]
       | plain x =>
@@ -574,11 +591,15 @@ theorem step_refines (env : Env) (hs : SimpleEnv env) (hok : EnvOK env) (ms : MS
         apply withStore_abs
         simp only [storeDotted, head_defined env hs hok]
         cases hq : pyVarSrc env d
-        · have hr : reserved a = false := by simpa [hq] using hc
+        · have hr : fx.setattrDict = true ∨ reserved a = false := by
+            simp only [hq, Option.isSome_none, Bool.or_eq_true, Bool.not_eq_true', Bool.false_eq_true, or_false] at hc
+            exact hc
           simp only [Option.isSome_none, Bool.false_eq_true, if_false, List.length_cons, List.length_nil,
             ASSIGN_DOTS_SET, ASSIGN_DOTS_SETATTR]
-          have := stateSetattr_abs env ms.store [d, n, a] x (by
-            intro d' n' a' he; simp only [List.cons.injEq, and_true] at he; rw [← he.2.2]; exact hr)
+          have := stateSetattr_abs fx env ms.store [d, n, a] x (by
+            rcases hr with h | h
+            · exact Or.inl h
+            · right; intro d' n' a' he; simp only [List.cons.injEq, and_true] at he; rw [← he.2.2]; exact h)
           simpa [absState] using this
         · simp [absOut, absState]
   | delStmt parts =>
@@ -587,10 +608,12 @@ theorem step_refines (env : Env) (hs : SimpleEnv env) (hok : EnvOK env) (ms : MS
     simp only [Conf] at hc
     simp only [step, Spec.step]
     apply withStore_abs
-    have hp : pyVarSrc env d = none := by simpa using hc
-    simp only [delDotted, head_defined env hs hok, hp, Option.isSome_none, Bool.and_false, Bool.false_eq_true,
-      if_false, Spec.delStmt]
-    exact stateDelete_abs ms.store _
+    simp only [delDotted, head_defined env hs hok, Spec.delStmt]
+    cases hq : pyVarSrc env d
+    · simp only [Option.isSome_none, Bool.and_false, Bool.false_eq_true, if_false]
+      exact stateDelete_abs ms.store _
+    · have hf : fx.delPyAttr = true := by simpa [hq] using hc
+      simp [hf, absOut, absState]
   | set parts v na kw =>
     simp only [step, Spec.step]
     cases v with
@@ -617,9 +640,12 @@ theorem step_refines (env : Env) (hs : SimpleEnv env) (hok : EnvOK env) (ms : MS
     simp only [step, Spec.step]
     apply withStore_abs
     apply stateSetattr_abs
-    intro d n a he
-    subst he
-    simpa [Conf] using hc
+    rcases parts with _ | ⟨d, _ | ⟨n, _ | ⟨a, _ | ⟨b, r⟩⟩⟩⟩
+    all_goals first | (right; intro d' n' a' he; simp at he; done) | skip
+    simp only [Conf, Bool.or_eq_true, Bool.not_eq_true'] at hc
+    rcases hc with h | h
+    · exact Or.inl h
+    · right; intro d' n' a' he; simp only [List.cons.injEq, and_true] at he; rw [← he.2.2]; exact h
   | delete parts =>
     simp only [step, Spec.step]
     apply withStore_abs
